@@ -1482,6 +1482,10 @@ def gen_case(rng, kind, n=None, direction=None, algorithm=None, min_spacing=None
             "showTicks": rng.random() < 0.7, "showBorder": rng.random() < 0.5, "labella": lab}
     if rng.random() < 0.15:
         opts["latex"] = {"tickCross": True}
+    if rng.random() < 0.08:
+        # textFn=None is handled explicitly by Timeline.textFn (d.get("text")): same texts as the
+        # default accessor (a surviving mutant of the seed-3 campaign sat in that branch)
+        opts["textFn"] = None
     # partial options: drop some top-level keys (documented: any subset)
     if rng.random() < 0.2:
         for k in rng.sample(["initialWidth", "initialHeight", "margin", "layerGap", "labelPadding", "dotRadius",
